@@ -84,7 +84,9 @@ var tagShapes = []string{"#work", "#Work", "#WORK", "#home-office", "#under_scor
 	// long names and values in scripts with multi-byte letters (more bytes than characters), characters of category Sk, a backslash in front of the closing quote
 	"#длинноеназваниетегапроекта", "#这是一个非常长的标签名称用于测试", "#προγραμματισμόςκαιανάπτυξη=\"μεγάληαξίαγιατηνετικέταμας\"", "#topic=\"x^2 + y^2\"", "#cmd='`ls -la`'", "#dir=\"C:\\\"", "#p='a\\\"b'", "#ticket=12", "#ticket",
 	// tags may appear anywhere within a summary: glued to punctuation or to other text
-	"(#work,", "(#t1)", "pairing/#t2", "#t1,#t2", "[#dup=v]", "issue#12", "#gym#sauna", "über#t3", "«#work»", "x:#a=1;", "\"#t2\"", "—#ticket=891"}
+	"(#work,", "(#t1)", "pairing/#t2", "#t1,#t2", "[#dup=v]", "issue#12", "#gym#sauna", "über#t3", "«#work»", "x:#a=1;", "\"#t2\"", "—#ticket=891",
+	// letters whose UTF-8 encoding contains a byte that is a control code of its own in 8-bit terminals (0x9B CSI, 0x9D OSC, 0x90 DCS, 0x85 NEL)
+	"#śniadanie", "#město=\"Plzeň\"", "#Лето", "#ŝanĝo=ĝusta", "#Őr=ą", "#țară"}
 
 // word returns one summary word according to the options.
 func word(r *core.Rand, o *Opts, out *Out) string {
